@@ -1505,6 +1505,96 @@ func sortedBoolKeys(m map[string]bool) []string {
 	return out
 }
 
+// isErrorList reports whether a package-level variable is a slice or array of errors.
+func isErrorList(g *ssa.Global) bool {
+	switch t := derefType(g.Type()).Underlying().(type) {
+	case *types.Slice:
+		return isErrorType(t.Elem())
+	case *types.Array:
+		return isErrorType(t.Elem())
+	}
+	return false
+}
+
+// sentinelListElems resolves the elements of a package-level list of sentinel errors:
+// the list is assigned once, in the package initialiser, from a literal whose elements
+// are loads of sentinel variables, and nothing else in the module stores to it or to
+// one of its elements.
+func (c *Ctx) sentinelListElems(g *ssa.Global) ([]string, bool) {
+	var names []string
+	assigned := 0
+	for _, fn := range c.Fns {
+		for _, b := range fn.Blocks {
+			for _, in := range b.Instrs {
+				st, ok := in.(*ssa.Store)
+				if !ok {
+					continue
+				}
+				root, _ := accessPath(st.Addr)
+				if ld, isLd := root.(*ssa.UnOp); isLd {
+					root = ld.X
+				}
+				if root != ssa.Value(g) {
+					continue
+				}
+				if st.Addr != ssa.Value(g) {
+					// an element written in place
+					if ia, isIA := st.Addr.(*ssa.IndexAddr); isIA && ia.X == ssa.Value(g) && fn.Name() == "init" {
+						u, isU := st.Val.(*ssa.UnOp)
+						if !isU {
+							return nil, false
+						}
+						eg, isG := u.X.(*ssa.Global)
+						if !isG {
+							return nil, false
+						}
+						names = append(names, eg.Name())
+						continue
+					}
+					return nil, false
+				}
+				if fn.Name() != "init" || fn.Pkg == nil || fn.Pkg != g.Pkg {
+					return nil, false
+				}
+				assigned++
+				sl, isSl := st.Val.(*ssa.Slice)
+				if !isSl {
+					return nil, false
+				}
+				al, isAl := sl.X.(*ssa.Alloc)
+				if !isAl {
+					return nil, false
+				}
+				for _, ref := range *al.Referrers() {
+					ia, isIA := ref.(*ssa.IndexAddr)
+					if !isIA {
+						continue
+					}
+					for _, r2 := range *ia.Referrers() {
+						est, isSt := r2.(*ssa.Store)
+						if !isSt {
+							continue
+						}
+						u, isU := est.Val.(*ssa.UnOp)
+						if !isU {
+							return nil, false
+						}
+						eg, isG := u.X.(*ssa.Global)
+						if !isG {
+							return nil, false
+						}
+						names = append(names, eg.Name())
+					}
+				}
+			}
+		}
+	}
+	if len(names) == 0 || assigned > 1 {
+		return nil, false
+	}
+	return names, true
+}
+
 // sentinelMatcher recognises a helper of the form
 //
 //	func(err error) bool { for _, s := range [...]error{A, B, ...} { if errors.Is(err, s) { return true } }; return false }
@@ -1570,6 +1660,17 @@ func (c *Ctx) sentinelMatcher(fn *ssa.Function) (map[string]bool, bool) {
 			switch x := l.(type) {
 			case *ssa.UnOp:
 				if g, ok := x.X.(*ssa.Global); ok {
+					if isErrorList(g) {
+						// a package-level list of sentinels: its elements, as the package initialiser sets them
+						names, okList := c.sentinelListElems(g)
+						if !okList {
+							return nil, false
+						}
+						for _, n := range names {
+							set[n] = true
+						}
+						continue
+					}
 					set[g.Name()] = true
 					continue
 				}
